@@ -56,3 +56,48 @@ VP_REF_DECL(rfx_)
 #ifdef __cplusplus
 }
 #endif
+
+/* VP_REF_SAME_ARITH: in a fixed-point build of the tree, ref_x names the frozen *fixed-point* codec (rfx_x), so that a target written
+ * against ref_x compares like with like in both arithmetic variants (link with refs=("ref-fix",) there). */
+#if defined(FIXED_POINT) && defined(VP_REF_SAME_ARITH)
+#define ref_opus_encoder_create rfx_opus_encoder_create
+#define ref_opus_encoder_get_size rfx_opus_encoder_get_size
+#define ref_opus_encoder_init rfx_opus_encoder_init
+#define ref_opus_encode rfx_opus_encode
+#define ref_opus_encode24 rfx_opus_encode24
+#define ref_opus_encode_float rfx_opus_encode_float
+#define ref_opus_encoder_ctl rfx_opus_encoder_ctl
+#define ref_opus_encoder_destroy rfx_opus_encoder_destroy
+#define ref_opus_decoder_create rfx_opus_decoder_create
+#define ref_opus_decoder_get_size rfx_opus_decoder_get_size
+#define ref_opus_decoder_init rfx_opus_decoder_init
+#define ref_opus_decode rfx_opus_decode
+#define ref_opus_decode24 rfx_opus_decode24
+#define ref_opus_decode_float rfx_opus_decode_float
+#define ref_opus_decoder_ctl rfx_opus_decoder_ctl
+#define ref_opus_decoder_destroy rfx_opus_decoder_destroy
+#define ref_opus_packet_parse rfx_opus_packet_parse
+#define ref_opus_packet_get_nb_samples rfx_opus_packet_get_nb_samples
+#define ref_opus_packet_has_lbrr rfx_opus_packet_has_lbrr
+#define ref_opus_repacketizer_create rfx_opus_repacketizer_create
+#define ref_opus_repacketizer_init rfx_opus_repacketizer_init
+#define ref_opus_repacketizer_destroy rfx_opus_repacketizer_destroy
+#define ref_opus_repacketizer_cat rfx_opus_repacketizer_cat
+#define ref_opus_repacketizer_out_range rfx_opus_repacketizer_out_range
+#define ref_opus_repacketizer_out rfx_opus_repacketizer_out
+#define ref_opus_repacketizer_get_nb_frames rfx_opus_repacketizer_get_nb_frames
+#define ref_opus_packet_pad rfx_opus_packet_pad
+#define ref_opus_packet_unpad rfx_opus_packet_unpad
+#define ref_opus_multistream_encoder_create rfx_opus_multistream_encoder_create
+#define ref_opus_multistream_surround_encoder_create rfx_opus_multistream_surround_encoder_create
+#define ref_opus_multistream_encode rfx_opus_multistream_encode
+#define ref_opus_multistream_encode_float rfx_opus_multistream_encode_float
+#define ref_opus_multistream_encoder_ctl rfx_opus_multistream_encoder_ctl
+#define ref_opus_multistream_encoder_destroy rfx_opus_multistream_encoder_destroy
+#define ref_opus_multistream_decoder_create rfx_opus_multistream_decoder_create
+#define ref_opus_multistream_decode rfx_opus_multistream_decode
+#define ref_opus_multistream_decode_float rfx_opus_multistream_decode_float
+#define ref_opus_multistream_decoder_ctl rfx_opus_multistream_decoder_ctl
+#define ref_opus_multistream_decoder_destroy rfx_opus_multistream_decoder_destroy
+#define ref_opus_pcm_soft_clip rfx_opus_pcm_soft_clip
+#endif
